@@ -1,8 +1,8 @@
 #!/bin/bash
-# usage: verify_seed.sh <pid-lower e.g. c06> ; verifies /tmp/seed_<pid>_a_out/{1,2}
-P=$1; WT=/tmp/seed_${P}_a
+# usage: verify_seed.sh <pid-lower e.g. c06> [suffix, default a] ; verifies /tmp/seed_<pid>_<suffix>_out/{1,2}
+P=$1; S=${2:-a}; WT=/tmp/seed_${P}_${S}
 for n in 1 2; do
-  O=/tmp/seed_${P}_a_out/$n
+  O=/tmp/seed_${P}_${S}_out/$n
   [ -f $O/patch.diff ] || continue
   cd $WT && git checkout -q -- . && git apply $O/patch.diff || { echo "$P/$n: PATCH FAILED"; continue; }
   T=$(/tmp/repo_tests.sh $WT 2>&1 | grep -E "^# (PASS|FAIL|ERROR)" | tr '\n' ' ')
